@@ -29,7 +29,9 @@ RULE = (
     "the second set of matrices is checked too; grid, stiffness and bc arrays are digested "
     "before / after every discretize (purity); valid NON-CONVEX grids (dart quadrilaterals, "
     "validity = positive volumes adding up to the domain measure, closed, non-self-intersecting "
-    "cells); `partition_arguments` num_subproblems in {1 (main alphabet), 2, 3}"
+    "cells); `partition_arguments` num_subproblems in {1 (main alphabet), 2, 3}; sequences: ONE "
+    "Mpsa object and stiffness object used for two grids in a row (same sizes / different "
+    "topology; same topology / different geometry; the same grid object moved)"
 )
 ASSUMPTIONS = [
     "constant isotropic stiffness; every boundary face is entirely Dirichlet or entirely "
@@ -129,6 +131,11 @@ def _axes_cases(tier):
             out += _side_cases(spec, mulam=ml, nsub=k) + _indep_cases(spec, 1 if quick else 2, 1, mulam=ml, nsub=k)
         for spec in fam3:
             out += _indep_cases(spec, 1, 1, mulam=ml, nsub=k)
+    # ONE Mpsa object (and stiffness object) reused for two grids
+    for kind, s1, s2 in G.SEQ_PAIRS_2D:
+        out += [dict(c, seq=[kind, s1, s2]) for c in _side_cases(s1, mulam=ml)]
+    for kind, s1, s2 in G.SEQ_PAIRS_3D:
+        out += [dict(c, seq=[kind, s1, s2]) for c in _indep_cases(s1, 1, 1, mulam=ml)]
     for sc in SCALES:
         for spec in fam2:
             sp = dict(spec, scale=sc)
@@ -203,11 +210,23 @@ def _gridclass(spec):
 
 
 def run_case(case) -> Outcome:
+    if "seq" not in case:
+        return _run_single(case)
+    # one Mpsa object (and, sizes permitting, one stiffness object) for both grids
+    out = Outcome()
+    shared = {"kind": case["seq"][0], "step": 0}
+    for spec in case["seq"][1:]:
+        shared["step"] += 1
+        out.merge(_run_single(dict(case, grid=spec), shared))
+    return out
+
+
+def _run_single(case, shared=None) -> Outcome:
     import porepy as pp
 
     out = Outcome()
     spec, mu, lam = case["grid"], case["mu"], case["lam"]
-    g = G.build(spec)
+    g = G.get_grid(spec, shared)
     d = g.dim
     nf, nc = g.num_faces, g.num_cells
     bf = G.boundary_faces(g)
@@ -231,7 +250,15 @@ def run_case(case) -> Outcome:
         gcls += f"/x{spec['scale']:g}"
     if nsub is not None:
         gcls += f"/nsub={nsub}"
-    stiff = pp.FourthOrderTensor(mu * np.ones(nc), lam * np.ones(nc))
+    if shared is not None:
+        gcls += f"/seq-{shared['kind']}{shared['step']}"
+        if shared.get("stiff") is None or shared["stiff"].values.shape[2] != nc:
+            shared["stiff"] = pp.FourthOrderTensor(mu * np.ones(nc), lam * np.ones(nc))
+        stiff = shared["stiff"]
+        seq_disc = shared.setdefault("disc", pp.Mpsa(KW))
+    else:
+        stiff = pp.FourthOrderTensor(mu * np.ones(nc), lam * np.ones(nc))
+        seq_disc = None
     dig0 = G.digest(g, stiff)
 
     for neu in F.enumerate_assignments(case["assign"], spec, g):
@@ -249,7 +276,7 @@ def run_case(case) -> Outcome:
             params["partition_arguments"] = {"num_subproblems": nsub}
         data = pp.initialize_data({}, KW, params)
         bccls = "allD" if not neu else ("allN" if dirf.size == 0 else f"mix{min(len(neu), 4)}")
-        disc = pp.Mpsa(KW)
+        disc = seq_disc if seq_disc is not None else pp.Mpsa(KW)
         dig_bc = G.digest(bc)
         for npass in range(2 if reuse else 1):
             tag = "" if npass == 0 else "/reuse"
@@ -297,7 +324,7 @@ def run_case(case) -> Outcome:
                     f = int(dirf[k])
                     bad = ("MPSA boundary displacement differs from u on a Dirichlet face", f, ub[:, f], uf[:, f], tol_u)
                 nontrivial = (not korth) and kind != "transl" and bool(neu) and dirf.size > 0
-                key = (gname, mu, lam, tuple(neu), label, case["inverter"], eta, npass, nsub) if nontrivial else None
+                key = (gname, mu, lam, tuple(neu), label, case["inverter"], eta, npass, nsub, shared["step"] if shared else 0) if nontrivial else None
                 if bad is not None:
                     if len(out.violations) < 5:
                         out.violate(bad[0], grid=spec, grid_name=gname, mu=mu, lam=lam, neumann_faces=neu,
